@@ -83,14 +83,17 @@ int vp_harness_main(void) {
   if (threw) { ASSERT(vp_exc_kind == VP_EXC_UNICODE, "only ST::unicode_error"); vp_clear_exception(); }
   for (int i = 0; i < NA; i++) ASSERT(p[i] == sa[i], "argument text unchanged");
 #elif OP == 7
-  T_vp_assign_u16buf_a1 b; { b.f1 = NA; b.f0 = b.f2.a; for (int i = 0; i < NA; i++) b.f2.a[i] = vp_in_u16(); b.f2.a[NA] = 0; }
+  /* the argument buffer in the storage mode its size demands (in-object below the limit, heap at or above it) */
+  T_vp_assign_u16buf_a1 b; { b.f1 = NA; b.f0 = NA >= LOCAL_LEN(2) ? (uint16_t *)vpx__Znam((NA + 1) * 2) : b.f2.a; for (int i = 0; i < NA; i++) b.f0[i] = vp_in_u16(); b.f0[NA] = 0; }
   vp_assign_u16buf(&t, &b);
   int threw = vp_exc_pending;
+  if (NA >= LOCAL_LEN(2)) vpx__ZdaPv((uint8_t *)b.f0);
   if (threw) { ASSERT(vp_exc_kind == VP_EXC_UNICODE, "only ST::unicode_error"); vp_clear_exception(); }
 #elif OP == 8
-  T_vp_assign_u32buf_a1 b; { b.f1 = NA; b.f0 = b.f2.a; for (int i = 0; i < NA; i++) b.f2.a[i] = vp_in_u32(); b.f2.a[NA] = 0; }
+  T_vp_assign_u32buf_a1 b; { b.f1 = NA; b.f0 = NA >= LOCAL_LEN(4) ? (uint32_t *)vpx__Znam((NA + 1) * 4) : b.f2.a; for (int i = 0; i < NA; i++) b.f0[i] = vp_in_u32(); b.f0[NA] = 0; }
   vp_assign_u32buf(&t, &b);
   int threw = vp_exc_pending;
+  if (NA >= LOCAL_LEN(4)) vpx__ZdaPv((uint8_t *)b.f0);
   if (threw) { ASSERT(vp_exc_kind == VP_EXC_UNICODE, "only ST::unicode_error"); vp_clear_exception(); }
 #elif OP == 9 || OP == 11
   uint32_t c = vp_in_u32();
